@@ -29,7 +29,8 @@ type Entry struct {
 	RemoteAddr      string
 
 	// annotations, not part of the replicated entry
-	Role string `json:",omitempty"` // intended role of the sender: unreg, client, oper, link
+	Role string `json:",omitempty"` // role of the sender (overwritten by the harness with what the state says)
+	Gen  string `json:",omitempty"` // what the generator believed the sender to be: unreg, client, oper, link, probe
 	Cmd  string `json:",omitempty"`
 }
 
@@ -235,7 +236,7 @@ func (g *Gen) line(s *gsess, data string) {
 			cmd = parts[1]
 		}
 	}
-	g.emit(Entry{Type: int64(robust.IRCFromClient), Session: s.id, Data: data, ClientMessageId: s.cmid, RemoteAddr: addr, Role: role, Cmd: strings.ToUpper(cmd)})
+	g.emit(Entry{Type: int64(robust.IRCFromClient), Session: s.id, Data: data, ClientMessageId: s.cmid, RemoteAddr: addr, Role: role, Gen: role, Cmd: strings.ToUpper(cmd)})
 }
 
 func (g *Gen) live() []*gsess {
